@@ -714,7 +714,24 @@ def main(out_path):
         L.append("Definition STORE_COMMIT_ACTS : list act := [" + "; ".join(commit_acts) + "].")
         L.append(f"Definition STORE_LOCK_EXCLUSIVE : bool := {'true' if store_excl else 'false'}.")
         L.append(f"Definition CACHE_LOCK_EXCLUSIVE : bool := {'true' if cache_excl else 'false'}.")
+        # the cache's persisted files are written back in `impl Drop for Cache`, whose body runs BEFORE the fields of Cache
+        # (among them `_lock`) are dropped; written back from the Drop of a FIELD (e.g. the state) they would be written after
+        # the flock is gone
+        wb = ("store_diff_cache", "store_command_history", "store_publisher_cache")
+        try:
+            drop_cache = item_body(storage, r"\bimpl\s+Drop\s+for\s+Cache\s*\{", "impl Drop for Cache")
+        except TranslateError:
+            drop_cache = ""
+        other_drops = [m_.group(1) for m_ in re.finditer(r"\bimpl\s+Drop\s+for\s+(\w+)\s*\{", storage) if m_.group(1) != "Cache"]
+        elsewhere = False
+        for nm_ in other_drops:
+            b_ = item_body(storage, r"\bimpl\s+Drop\s+for\s+%s\s*\{" % nm_, "impl Drop for " + nm_)
+            if any(w_ in b_ for w_ in wb):
+                elsewhere = True
+        wb_before = tri(all(w_ in drop_cache for w_ in wb) and not elsewhere, elsewhere and not any(w_ in drop_cache for w_ in wb),
+                        "where the cache's persisted files are written back")
         L.append(f"Definition FILELOCK_DROP_UNLOCKS : bool := {'true' if drop_unlocks else 'false'}.")
+        L.append(f"Definition CACHE_WRITEBACK_BEFORE_UNLOCK : bool := {'true' if wb_before else 'false'}.")
         L.append("")
 
     with section(L, "the caveat level of an edge (search_for_path): translated arm by arm"):
